@@ -516,7 +516,7 @@ SHRINK_OFF = {
     "producer": False, "domain": False, "model_version": False, "model_doc": False, "model_meta": False,
     "explicit_defaults": False, "symbolic_batch": False, "function_doc": False, "function_meta": False,
     "function_value_info": False, "w2_raw": False, "const_tensor_node": "none", "expand_fold": "none",
-    "big_initializer": "none", "repl_call": False, "sparse_attr": False, "subgraph_if": False, "second_custom_domain": False, "expand_from_constant_nodes": False, "tensor_meta": False, "other_fields": False, "function_dead_node": False,
+    "big_initializer": "none", "repl_call": False, "no_fold": False, "sparse_attr": False, "subgraph_if": False, "second_custom_domain": False, "expand_from_constant_nodes": False, "tensor_meta": False, "other_fields": False, "function_dead_node": False,
 }
 
 
@@ -808,6 +808,10 @@ def _main(run: core.Run, audit: dict, tables: dict, stats: Counter) -> None:
                 stats["branch_inline_false_with_functions"] += 1
             if api == "convert_version" and capi_path_taken(ft["opset"], o) and ft.get("big_initializer") == "input":
                 stats["branch_capi_with_big_overridable_initializer"] += 1
+            if api == "fold_constants" and c15_api.LAST.get("fold_modified") is False and not ft.get("sparse_attr"):
+                stats["branch_fold_reports_unmodified"] += 1  # nothing folded, the IR is only annotated
+                if o.get("onnx_shape_inference"):
+                    stats["branch_fold_unmodified_with_shape_inference"] += 1
             if api == "convert_version" and o.get("target_version") == ft["opset"]:
                 stats["branch_convert_same_version"] += 1
             if len(run.samples) < 6 and k % 7 == 0 and api in ("optimize", "convert_version", "rewrite_rules"):
@@ -836,15 +840,19 @@ def _main(run: core.Run, audit: dict, tables: dict, stats: Counter) -> None:
         want = ("property", None, re.sub(r"[\[{].*", "", det)[:60])
         small = shrink_case(case, tables, lambda c: want in classes(c))
         dets = [d for k, f, d in run_case(small, tables, Counter()) if k == "property" and not f]
-        run.violation({"case": small, "detail": dets[:4] or [det], "others": len(prop_fail) - 1},
-                      f"{small['api']}: {(dets or [det])[0]}")
+        body = {"case": small, "detail": dets[:4] or [det], "others": len(prop_fail) - 1}
+        if not audit["ok"]:
+            # the Lean obligations over the regenerated source tables were rejected as well: same change, this is its input
+            body["proof_obligations_rejected"] = {"problems": audit["problems"], "log": audit["build_log"][-1500:]}
+        run.violation(body, f"{small['api']}: {(dets or [det])[0]}"
+                      + ("  [the source theorems of OV.Props.C15 are rejected too]" if not audit["ok"] else ""))
     elif tie_fail:
         case, det = tie_fail[0]
         run.violation({"case": case, "detail": det, "broken": "correspondence OV.C15.protoPath/irPath/touches vs implementation",
                        "others": len(tie_fail) - 1},
                       f"correspondence broken: {det}; no input found on which the real wrappers violate the property's oracle",
                       no_input=True)
-    if not audit["ok"]:
+    if not audit["ok"] and not prop_fail:
         run.violation({"broken": "proof obligations of OV.Props.C15", "problems": audit["problems"], "log": audit["build_log"][-1500:]},
                       "Lean proof obligations for C15 do not check: " + "; ".join(audit["problems"][:3]), no_input=True)
 
@@ -874,6 +882,7 @@ def _main(run: core.Run, audit: dict, tables: dict, stats: Counter) -> None:
     required = [
         "branch_default_limits_straddled", "branch_explicit_limits_on_growing_fold", "branch_inline_false_with_functions",
         "branch_capi_with_big_overridable_initializer", "branch_convert_same_version", "convert_capi_path",
+        "branch_fold_reports_unmodified", "branch_fold_unmodified_with_shape_inference",
         "replace_guard_functions_0", "replace_guard_functions_1", "inline_functions_0", "inline_functions_1",
         "routes_checked", "serde_refused_models", "feat_subgraph_if", "feat_const_tensor_node=anon", "feat_explicit_defaults",
         "feat_function_value_info", "feat_other_fields", "feat_tensor_meta", "err_convert_version_VersionConverterError",
